@@ -197,8 +197,11 @@ def _design_c(fnode, stmts):
         if pr is None or pr != P.sym("LEN"):
             continue
         e = c.elt
-        if not (isinstance(e, ast.Call) and norm(e.func) == "PrivVal" and len(e.args) == 1 and not e.keywords):
+        if not (isinstance(e, ast.Call) and norm(e.func).split(".")[-1] in ("PrivVal", "PrivValBool") and len(e.args) == 1 and not e.keywords):
             continue
+        # PrivValBool allocates the witness WITH its booleanity constraint and hands back the LinCombBool: hypothesis "bool" holds
+        # by construction and the list itself is the selector
+        selfbool = norm(e.func).split(".")[-1] == "PrivValBool"
         h = norm(e.args[0])
         X = None
         for x in ast.walk(e.args[0]):
@@ -211,6 +214,8 @@ def _design_c(fnode, stmts):
         B = s.targets[0].id
         rest = stmts[i + 1:]
         got = {}
+        if selfbool:
+            got["bool"] = -1
         for q, t in enumerate(rest):
             if "bool" not in got and isinstance(t, ast.For) and isinstance(t.target, ast.Name) and norm(t.iter) == B and not t.orelse \
                     and len(t.body) == 1 and isinstance(t.body[0], ast.Expr) and isinstance(t.body[0].value, ast.Call):
@@ -239,6 +244,8 @@ def _design_c(fnode, stmts):
                                 got["tie"] = q
                 if got.get("tie") == q:
                     continue
+            if len(got) == 3 and selfbool:
+                break
             if len(got) == 3:
                 tv = t.value if isinstance(t, (ast.Assign, ast.Return)) else None
                 if isinstance(tv, ast.ListComp) and len(tv.generators) == 1 and not tv.generators[0].ifs \
@@ -248,6 +255,15 @@ def _design_c(fnode, stmts):
                     break
             if _uses(B, t):
                 break
+        if selfbool and len(got) == 3:
+            # B = [X == ix ...] in place; the sum check stays where it is, the tie to the index is implied by the equality tests
+            s2 = ast.copy_location(ast.Assign(targets=[ast.Name(id=B, ctx=ast.Store())],
+                                              value=ast.parse("[%s == %s for %s in range(len(%s))]" % (X, ix, ix, a), mode="eval").body), s)
+            out = list(stmts[:i]) + [s2] + [u for q, u in enumerate(rest) if q != got["tie"]]
+            for o in out:
+                ast.fix_missing_locations(o)
+            stmts[:] = out
+            return "C"
         if len(got) != 4:
             continue
         t = rest[got["sel"]]
@@ -273,16 +289,151 @@ def _design_c(fnode, stmts):
     return None
 
 
+def _design_e(fnode, stmts):
+    """(E)   annihilated witnesses:               B  = [PrivVal(1 if X.value == ix else 0) for ix in range(N)]      N == len(A)
+                                                for j in range(N): add_constraint[_unsafe](B[j], X - j, ZERO)
+                                                sum(B).assert_eq(1)
+                                                selector = [LinCombBool(b, False) for b in B]
+          B[j] * (X - j) = 0 forces B[j] = 0 wherever j != X; the sum then forces X into range and B[X] = 1: the unit vector of X.
+          The hints satisfy every product whatever X is (so the products may be emitted unguarded)."""
+    for i, s in enumerate(stmts):
+        if not (isinstance(s, ast.Assign) and len(s.targets) == 1 and isinstance(s.targets[0], ast.Name) and isinstance(s.value, ast.ListComp)):
+            continue
+        c = s.value
+        if len(c.generators) != 1 or c.generators[0].ifs or not isinstance(c.generators[0].target, ast.Name):
+            continue
+        g = c.generators[0]
+        ix = g.target.id
+        if not (isinstance(g.iter, ast.Call) and norm(g.iter.func) == "range" and len(g.iter.args) == 1):
+            continue
+        pr, a = _len_poly(fnode, g.iter.args[0])
+        if pr is None or pr != P.sym("LEN"):
+            continue
+        e = c.elt
+        if not (isinstance(e, ast.Call) and norm(e.func) == "PrivVal" and len(e.args) == 1 and not e.keywords):
+            continue
+        h = norm(e.args[0])
+        X = None
+        for x in ast.walk(e.args[0]):
+            if isinstance(x, ast.Attribute) and x.attr == "value" and isinstance(x.value, ast.Name):
+                X = x.value.id
+        if X is None or h not in ("1 if %s.value == %s else 0" % (X, ix), "1 if %s == %s.value else 0" % (ix, X),
+                                  "int(%s.value == %s)" % (X, ix), "int(%s == %s.value)" % (ix, X)):
+            continue
+        B = s.targets[0].id
+        rest = stmts[i + 1:]
+        got = {}
+        for q, t in enumerate(rest):
+            if "prod" not in got and isinstance(t, ast.For) and isinstance(t.target, ast.Name) and not t.orelse and len(t.body) == 1 \
+                    and isinstance(t.iter, ast.Call) and norm(t.iter.func) == "range" and len(t.iter.args) == 1 \
+                    and isinstance(t.body[0], ast.Expr) and isinstance(t.body[0].value, ast.Call):
+                pz, a2 = _len_poly(fnode, t.iter.args[0])
+                cc = t.body[0].value
+                j = t.target.id
+                if pz is not None and pz == P.sym("LEN") and a2 == a and norm(cc.func).split(".")[-1] in ("add_constraint", "add_constraint_unsafe") \
+                        and len(cc.args) == 3 and not cc.keywords and norm(cc.args[2]) in ZEROS:
+                    two = {norm(cc.args[0]), norm(cc.args[1])}
+                    if two in ({"%s[%s]" % (B, j), "%s - %s" % (X, j)}, {"%s[%s]" % (B, j), "%s - %s" % (j, X)}):
+                        got["prod"] = q
+                        continue
+            if "sum" not in got and isinstance(t, ast.Expr) and norm(t.value) == "sum(%s).assert_eq(1)" % B:
+                got["sum"] = q
+                continue
+            if len(got) == 2:
+                tv = t.value if isinstance(t, (ast.Assign, ast.Return)) else None
+                if isinstance(tv, ast.ListComp) and len(tv.generators) == 1 and not tv.generators[0].ifs \
+                        and norm(tv.generators[0].iter) == B and isinstance(tv.generators[0].target, ast.Name) \
+                        and norm(tv.elt) == "LinCombBool(%s, False)" % tv.generators[0].target.id:
+                    got["sel"] = q
+                    break
+            if _uses(B, t):
+                break
+        if len(got) != 3:
+            continue
+        t = rest[got["sel"]]
+        S = t.targets[0].id if isinstance(t, ast.Assign) and isinstance(t.targets[0], ast.Name) else "_selector_%d" % getattr(s, "lineno", 0)
+        comp = ast.Assign(targets=[ast.Name(id=S, ctx=ast.Store())],
+                          value=ast.parse("[%s == %s for %s in range(len(%s))]" % (X, ix, ix, a), mode="eval").body)
+        chk = ast.Expr(value=ast.parse("sum(%s).assert_eq(1)" % S, mode="eval").body)
+        out = list(stmts[:i])
+        for q, u in enumerate(rest):
+            if q in (got["prod"], got["sum"]):
+                continue
+            if q == got["sel"]:
+                out.append(ast.copy_location(comp, s))
+                out.append(ast.copy_location(chk, u))
+                if isinstance(u, ast.Return):
+                    out.append(ast.copy_location(ast.Return(value=ast.Name(id=S, ctx=ast.Load())), u))
+                continue
+            out.append(u)
+        for o in out:
+            ast.fix_missing_locations(o)
+        stmts[:] = out
+        return "E"
+    return None
+
+
+def _unit_hint_lists(stmts):
+    """H = [0] * N ; if 0 <= V < N: H[V] = 1 ; B = [F(h) for h in H]     (H not used otherwise)
+       is  B = [F(1 if V == ix else 0) for ix in range(N)]: the list H is the unit vector of V when V is in range and all zeros
+       otherwise, which is what the conditional expression says position by position."""
+    for i in range(len(stmts) - 2):
+        a, b, c = stmts[i], stmts[i + 1], stmts[i + 2]
+        if not (isinstance(a, ast.Assign) and len(a.targets) == 1 and isinstance(a.targets[0], ast.Name) and isinstance(a.value, ast.BinOp)
+                and isinstance(a.value.op, ast.Mult)):
+            continue
+        H = a.targets[0].id
+        l_, r_ = a.value.left, a.value.right
+        if norm(l_) == "[0]":
+            N = r_
+        elif norm(r_) == "[0]":
+            N = l_
+        else:
+            continue
+        if not (isinstance(b, ast.If) and not b.orelse and len(b.body) == 1 and isinstance(b.body[0], ast.Assign) and len(b.body[0].targets) == 1
+                and isinstance(b.body[0].targets[0], ast.Subscript) and norm(b.body[0].targets[0].value) == H and norm(b.body[0].value) == "1"):
+            continue
+        V = b.body[0].targets[0].slice
+        t = norm(b.test).replace(" ", "")
+        v, n = norm(V).replace(" ", ""), norm(N).replace(" ", "")
+        if t not in ("0<=%s<%s" % (v, n), "%s>=0and%s<%s" % (v, v, n), "0<=%sand%s<%s" % (v, v, n), "%s<%sand%s>=0" % (v, n, v)):
+            continue
+        if not (isinstance(c, ast.Assign) and isinstance(c.value, ast.ListComp) and len(c.value.generators) == 1 and not c.value.generators[0].ifs
+                and norm(c.value.generators[0].iter) == H and isinstance(c.value.generators[0].target, ast.Name)):
+            continue
+        if any(_uses(H, u) for u in stmts[i + 3:]):
+            continue
+        h = c.value.generators[0].target.id
+        ix = "ix_%d" % getattr(a, "lineno", 0)
+
+        class _R(ast.NodeTransformer):
+            def visit_Name(self, nd):
+                if nd.id == h and isinstance(nd.ctx, ast.Load):
+                    return ast.copy_location(ast.parse("1 if %s == %s else 0" % (norm(V), ix), mode="eval").body, nd)
+                return nd
+        elt = _R().visit(clone(c.value.elt))
+        comp = ast.ListComp(elt=elt, generators=[ast.comprehension(target=ast.Name(id=ix, ctx=ast.Store()),
+                                                                  iter=ast.parse("range(%s)" % norm(N), mode="eval").body, ifs=[], is_async=0)])
+        new = ast.copy_location(ast.Assign(targets=c.targets, value=comp), c)
+        ast.fix_missing_locations(new)
+        stmts[i:i + 3] = [new]
+        return True
+    return False
+
+
 def canon_selector_designs(fnode):
     """rewrite blocks matching lemma (B) / (C) into the library form (A); returns the list of lemmas applied"""
     txt = None
     applied = []
+    for lst in _lists(fnode):
+        while _unit_hint_lists(lst):
+            pass
     for _ in range(4):
         hit = None
         for lst in _lists(fnode):
             if not any(isinstance(s, ast.Assign) and isinstance(s.value, ast.ListComp) for s in lst):
                 continue
-            hit = _design_b(fnode, lst) or _design_c(fnode, lst)
+            hit = _design_b(fnode, lst) or _design_c(fnode, lst) or _design_e(fnode, lst)
             if hit:
                 applied.append(hit)
                 break
